@@ -279,13 +279,34 @@ func runC06Proc(c *fw.Case) {
 	// `make --print-stats` prints the chunking statistics instead of writing the index file; its exit status still
 	// has to cover the chunks it was asked to store
 	printStats := cmdKind == 2 && c.Bool("proc.printstats")
-	c.Class(fmt.Sprintf("proc %s n=%s fail=%s stats=%v", names[cmdKind], n, failKind, printStats))
+	// chop and cache can be told to leave out the chunks another index names; everything else still has to arrive
+	ignored := map[desync.ChunkID]bool{}
+	ignoreFile := filepath.Join(dir, "ignore.caibx")
+	if cmdKind <= 1 && c.ChanceAdded(1, 3, "proc.ignore") {
+		ig := desync.Index{Index: idx.Index}
+		var pos uint64
+		for _, ch := range idx.Chunks {
+			if c.Chance(1, 3, "proc.ignore.pick") && !ignored[ch.ID] {
+				ignored[ch.ID] = true
+				ig.Chunks = append(ig.Chunks, desync.IndexChunk{ID: ch.ID, Start: pos, Size: ch.Size})
+				pos += ch.Size
+			}
+		}
+		writeIndexFile(ignoreFile, ig)
+	}
+	c.Class(fmt.Sprintf("proc %s n=%s fail=%s stats=%v ignore=%d", names[cmdKind], n, failKind, printStats, len(ignored)))
 	c.Note("real `desync %s` n=%s chunks=%d, one %s request answered 500 (error-retry 0)", names[cmdKind], n, len(idx.Chunks), failKind)
 	args := func(g *gateServer) []string {
 		switch cmdKind {
 		case 0:
+			if len(ignored) > 0 {
+				return []string{"chop", "-n", n, "-e", "0", "--ignore", ignoreFile, "-s", g.url(), indexFile, blobFile}
+			}
 			return []string{"chop", "-n", n, "-e", "0", "-s", g.url(), indexFile, blobFile}
 		case 1:
+			if len(ignored) > 0 {
+				return []string{"cache", "-n", n, "-e", "0", "--ignore", ignoreFile, "-s", g.url(), "-c", cacheDir, indexFile}
+			}
 			return []string{"cache", "-n", n, "-e", "0", "-s", g.url(), "-c", cacheDir, indexFile}
 		case 2:
 			if printStats {
@@ -323,6 +344,9 @@ func runC06Proc(c *fw.Case) {
 		if cmdKind == 1 {
 			ls, _ := desync.NewLocalStore(cacheDir, desync.StoreOptions{})
 			for _, ch := range idx.Chunks {
+				if ignored[ch.ID] {
+					continue
+				}
 				if _, err := ls.GetChunk(ch.ID); err != nil {
 					return "chunk " + ch.ID.String()[:8] + " cannot be read back from the cache: " + err.Error()
 				}
@@ -330,6 +354,9 @@ func runC06Proc(c *fw.Case) {
 			return ""
 		}
 		for _, ch := range idx.Chunks {
+			if ignored[ch.ID] {
+				continue
+			}
 			s := ch.ID.String()
 			z, ok := g.stored["/"+s[:4]+"/"+s+".cacnk"]
 			if !ok {
